@@ -351,6 +351,8 @@ class Heap(object):
             return FrameV(RefV(term, None), field)
         if t == "opaque":
             return OpaqueV(RefV(term, None), field)
+        if t == "optstr":
+            return Opt(self.nonearr(field).select(term), StrV(z3.Select(self._arr(field, Str).arr, term)))
         if t in ("list", "strlist"):
             return ListV(RefV(term, None), field)
         if t == "dict":
